@@ -49,7 +49,7 @@ StepLegacy ==
    /\ Ev.k = "legacy"
    /\ act' = <<"legacy", Ev.side>>
    /\ obs' = [st |-> "written"]
-   /\ file' = LegacyOf(fld, Ev.side)
+   /\ file' = LegacyOf(fld, Ev.side, {d \in 1 .. Len(fld.n) : Ev.sw[d]})
    /\ Verd(Ev.side => fld.subs # <<>>, "harness:legacy-side")
 StepRead ==
    /\ Ev.k = "read" /\ file # NoFile
